@@ -22,6 +22,13 @@ def jkey(x):
     return re.sub(r"\d{40,}", lambda m: f"{m.group(0)[:6]}..({len(m.group(0))} digits)", s)
 
 
+def srepr(x):
+    try:
+        return repr(x)
+    except Exception as ex:
+        return f"<repr raised {type(ex).__name__}>"
+
+
 class Acc:
     def __init__(self, run, name, bound):
         self.run = run
@@ -174,6 +181,23 @@ def c10_documents(run):
                 pass
             except Exception as ex:
                 acc.fail(key, f"parse() raised {type(ex).__name__}: {ex}")
+        too_deep = {}
+        cur = too_deep
+        for _ in range(3000):
+            cur["items"] = {}
+            cur = cur["items"]
+        cyc = {"type": "array"}
+        cyc["items"] = cyc
+        cyc_def = {"type": "string", "definitions": {"d": cyc}}
+        for label, doc in (("3000-deep items", too_deep), ("self-referential document", cyc), ("cycle under definitions", cyc_def),
+                           ("3000-deep under definitions", {"definitions": {"d": too_deep}})):
+            acc.case(label)
+            try:
+                parse(doc)
+            except SchemaParseError:
+                pass
+            except BaseException as ex:
+                acc.fail(label, f"parse() raised {type(ex).__name__} (not in the schema-parse family)")
         big = 10 ** 5000
         for S in [{"maximum": 1}, {"type": "integer", "minimum": 0}, {"const": 1}, {"enum": [1]}, {"type": "string"}, {"multipleOf": 3}, {"type": "number"}]:
             for label, v in (("10**5000", big), ("-10**5000", -big), ("[10**5000]", [big]), ("{'a': 10**5000}", {"a": big})):
@@ -248,7 +272,7 @@ def c08_histories(run):
                     acc.fail(key, f"input value was modified by validation: {v0!r} -> {vin!r}")
                 k2, r2 = outcome(e, copy.deepcopy(v0))
                 if k1 != k2 or (k1 == "ok" and obs(r1) != obs(r2)):
-                    acc.fail(key, f"second call differs: first {k1} {r1!r:.80}, second {k2} {r2!r:.80}")
+                    acc.fail(key, f"second call differs: first {k1} {srepr(r1)[:80]}, second {k2} {srepr(r2)[:80]}")
             after = (obs(e), serial(e))
             if before != after:
                 acc.fail(f"{edesc(mk())} after {len(vals)} calls", "element tree observably changed by validation calls",
@@ -338,7 +362,7 @@ DESCRIPTIONS = ["plain", "with 'single' quotes", 'with "double" quotes', 'ends w
 
 
 def c07_descriptions(run):
-    from statham.schema.parser import parse_element
+    from statham.schema.parser import parse_element, parse
     acc = Acc(run, "C07-descriptions", f"{len(DESCRIPTIONS)} description strings (quotes, backslashes, newlines, non-ASCII) on an object schema")
     w = quiet()
     try:
@@ -363,6 +387,32 @@ def c07_descriptions(run):
                     acc.fail(key + " [python]", f"generated class description {G.description!r} != {d!r}")
             except Exception as e:
                 acc.fail(key + " [python]", f"generated module failed: {type(e).__name__}: {e}")
+        # several same-titled, same-shaped object schemas in one document: each keeps its own description
+        doc = {"type": "object", "title": "Holder", "description": "the holder", "properties": {
+            "first": {"type": "object", "title": "Part", "description": "first description", "properties": {"v": {"type": "string"}}},
+            "second": {"type": "object", "title": "Part", "description": "second description", "properties": {"v": {"type": "string"}}},
+            "third": {"type": "object", "title": "Part", "properties": {"v": {"type": "string"}}},
+            "fourth": {"type": "object", "title": "Part", "description": "first description", "properties": {"v": {"type": "string"}}}}}
+        acc.case("same-title descriptions")
+        try:
+            els = parse(copy.deepcopy(doc))
+            root = els[0]
+            from statham.schema.constants import NotPassed
+            from statham.serializers.json import serialize_json
+            for pname, p in root.properties.items():
+                want = doc["properties"][p.source].get("description", NotPassed())
+                got = p.element.description
+                if not pyspec.same(got, want):
+                    acc.fail(f"same-title descriptions/{pname}", f"property {pname}: class description {got!r}, schema said {want!r} (moved between same-titled classes)")
+            src, ns = exec_generated(els)
+            J = serialize_json(*els)
+            for pname, p in root.properties.items():
+                want = doc["properties"][p.source].get("description")
+                cname = p.element.__name__
+                if want is not None and (ns[cname].description != want or J["definitions"][cname].get("description") != want):
+                    acc.fail(f"same-title descriptions/{pname} [serialised]", f"description of {cname} lost or moved in the Python/JSON serialisation")
+        except Exception as e:
+            acc.fail("same-title descriptions", f"{type(e).__name__}: {e}")
     finally:
         w.__exit__(None, None, None)
     return acc.result()
@@ -415,6 +465,28 @@ def c09_hashseeds(run):
                 a, b = sorted(outs.items())[0], next(x for x in sorted(outs.items()) if x[1] != sorted(outs.items())[0][1])
                 acc.fail(f"doc{i}:{jkey(doc)[:150]}", f"output differs between PYTHONHASHSEED={a[0]} and {b[0]}",
                          extra={"out_a": a[1][1][:800], "out_b": b[1][1][:800]})
+        # "depends only on the input document": generating another document first must not change the output
+        pair_a = {"type": "object", "title": "Record", "properties": {"party": {"type": "object", "title": "Customer", "properties": {"name": {"type": "string"}}}}}
+        pair_b = {"type": "object", "title": "Record", "properties": {"party": {"type": "object", "title": "Supplier", "properties": {"name": {"type": "string"}}}}}
+        pa, pb = os.path.join(tmp, "pa.json"), os.path.join(tmp, "pb.json")
+        json.dump(pair_a, open(pa, "w"))
+        json.dump(pair_b, open(pb, "w"))
+        prog2 = ("import sys; sys.path.insert(0, %r)\nfrom statham.__main__ import main\n"
+                 "for p in sys.argv[1:-1]:\n    main(p)\nprint(main(sys.argv[-1]))\n" % repo)
+        env = dict(os.environ, PYTHONHASHSEED="0", PYTHONPATH=repo)
+        fresh = subprocess.run(["/venv/bin/python", "-c", prog2, pb + "#/"], capture_output=True, text=True, env=env, timeout=120)
+        after = subprocess.run(["/venv/bin/python", "-c", prog2, pa + "#/", pb + "#/"], capture_output=True, text=True, env=env, timeout=120)
+        acc.case("history: A then B vs B alone")
+        if (fresh.returncode, fresh.stdout) != (after.returncode, after.stdout):
+            acc.fail("history: A then B vs B alone", "the module generated for a document differs when another document was generated earlier in the same process",
+                     extra={"fresh": fresh.stdout[:600], "after_other_document": after.stdout[:600] + after.stderr[-300:]})
+        for i, doc in enumerate(C09_DOCS[:2]):
+            path = os.path.join(tmp, f"doc{i}.json")
+            twice = subprocess.run(["/venv/bin/python", "-c", prog2, path + "#/", path + "#/"], capture_output=True, text=True, env=env, timeout=120)
+            once = subprocess.run(["/venv/bin/python", "-c", prog2, path + "#/"], capture_output=True, text=True, env=env, timeout=120)
+            acc.case(f"history: doc{i} twice")
+            if (once.returncode, once.stdout) != (twice.returncode, twice.stdout):
+                acc.fail(f"history: doc{i} twice", "generating the same document twice in one process gives a different module the second time")
     finally:
         shutil.rmtree(tmp, ignore_errors=True)
     return acc.result()
@@ -494,7 +566,7 @@ def c05_defaults(run):
                 kind, model = outcome(E, copy.deepcopy(data))
                 acc.case(key)
                 if kind != "ok":
-                    acc.fail(key, f"construction failed: {model!r:.120}")
+                    acc.fail(key, f"construction failed: {srepr(model)[:120]}")
                     continue
                 for n, p in props.items():
                     try:
@@ -535,9 +607,22 @@ def c05_defaults(run):
                 if obs(got) != obs(want):
                     acc.fail(key, f"calling with no value gave {got!r}, expected converted default {want!r}")
                 # each call converts afresh: mutating one result must not show in the next
+                # each call converts afresh: mutating one result must not show in the next
+                snapshot = obs(want)
+                try:
+                    if isinstance(got, list):
+                        got.append("mutated-by-caller")
+                    elif isinstance(got, dict):
+                        got["mutated-by-caller"] = 1
+                    elif hasattr(got, "_dict"):
+                        got._dict["mutated-by-caller"] = 1
+                except Exception:
+                    pass
                 got2 = e(NotPassed()) if not isinstance(e, type) else e()
-                if isinstance(got, (list, dict)) and got is got2 and got is not d:
-                    acc.fail(key, "two calls with no value return the same mutable object (default conversion is shared)")
+                k3, conv3 = outcome(e, copy.deepcopy(d))
+                want2 = conv3 if k3 == "ok" else d
+                if obs(got2) != snapshot and k2 == "ok":
+                    acc.fail(key, f"second call with no value gave {srepr(got2)[:100]} after the caller mutated the first result (default conversion is shared between calls)")
     finally:
         w.__exit__(None, None, None)
     return acc.result()
@@ -578,18 +663,18 @@ def c16_formats(run):
             acc.case("dt:" + s)
             k, r = outcome(dt, s)
             if k != "ok":
-                acc.fail("date-time:" + s, f"RFC 3339 timestamp rejected / error: {r!r:.100}")
+                acc.fail("date-time:" + s, f"RFC 3339 timestamp rejected / error: {srepr(r)[:100]}")
         for s in uuid_pool():
             acc.case("uuid:" + s)
             k, r = outcome(uu, s)
             if k != "ok":
-                acc.fail("uuid:" + s, f"canonical UUID rejected / error: {r!r:.100}")
+                acc.fail("uuid:" + s, f"canonical UUID rejected / error: {srepr(r)[:100]}")
         for s in ["99999999999999999999", "", "0", "T", "2020-13-01T00:00:00Z", "not a date", "1" * 400, "\x00", "٣٠"]:
             acc.case("junk:" + repr(s))
             for el in (dt, uu):
                 k, r = outcome(el, s)
                 if k == "error":
-                    acc.fail(f"{el.format}:{s!r:.40}", f"{type(r).__name__} escaped from the built-in checker: {r}")
+                    acc.fail(f"{el.format}:{srepr(s)[:40]}", f"{type(r).__name__} escaped from the built-in checker: {r}")
         # registration histories on a scratch name
         name = "x-verif-scratch"
         checkers = {"T": lambda v: True, "F": lambda v: False, "A": lambda v: v.startswith("a")}
